@@ -726,6 +726,8 @@ def run_history(hist):
         marks = [('moved', r) for r in rows]
         ref.add(pos, marks, keys)
         ref.order = [r[1] if isinstance(r, tuple) else r for r in ref.order if r not in rows]
+      elif kind == 'addcol':      # metadata rows with position columns (_grist_Tables_column.parentPos, field parentPos)
+        apply(e, ['AddColumn', 'T', 'C%d' % stepno, {'type': 'Text'}])
       elif kind == 'remove':
         if not rows_before:
           continue
@@ -747,6 +749,20 @@ def run_history(hist):
     bad = check_table(e, refs, 'step %d %r' % (stepno, op[:2]))
     if bad:
       return bad
+  return check_all_position_columns(e)
+
+
+def check_all_position_columns(e):
+  """Every PositionNumber / ManualSortPos column of every table (metadata included) holds distinct values.
+  (InitNewDoc adds one _grist_ACLRules row by a raw doc action; its rulePos keeps the default inf -- a single
+  unpositioned row, so only distinctness is required here, as in the property's last sentence.)"""
+  import column
+  for table_id, table in e.tables.items():
+    for col_id, col in table.all_columns.items():
+      if isinstance(col, column.PositionColumn):
+        vals = [col.raw_get(r) for r in table.row_ids]
+        if len(set(vals)) != len(vals):
+          return 'engine:duplicate', 'after the history %s.%s holds duplicate positions' % (table_id, col_id)
   return None
 
 
@@ -770,8 +786,10 @@ def gen_history(rng):
       m = rng.choice([1, 1, 2, 3])
       hist.append(['move', rng.choice(['manualSort', 'P']), [rng.randint(0, 50) for _ in range(m)],
                    [rng.choice([['at', rng.randint(0, 50)], rng.choice(pool)]) for _ in range(m)]])
-    else:
+    elif c < 0.95:
       hist.append(['remove', [rng.randint(0, 50) for _ in range(rng.choice([1, 2]))]])
+    else:
+      hist.append(['addcol'])
   return hist
 
 
